@@ -7,9 +7,10 @@ Binding: B2 directed replay.  TLC produces behaviours of Failover -- Gen_Failove
 -simulate) and Plan_Failover (an enumerated grid of plans that land exactly on the thresholds) -- each
 step with the model's projected state; harness/cmd/fodrive performs the steps on the REAL objects (a
 ServantProxy over a custom registry, real AdapterProxy records, the real endpointManager, scripted TCP
-servers that answer or stay silent, the status check driven through a test-only export, time advanced by
-shifting the adapters' timestamps) and compares the projection after every step and the server that
-received every call.
+servers that answer, stay silent, or stop listening and come back (a call to such an endpoint cannot even be
+sent: connection refused), the status check driven through a test-only export, time advanced by shifting the
+adapters' timestamps) and compares the projection after every step and the server that received every call
+(for a refused call: the endpoint whose address the dial error names).
 """
 import copy
 import json
@@ -22,7 +23,7 @@ from lib.core import Inconclusive, sh
 
 SPEC = "Failover"
 PROPS = ["NeverOutWithoutFailure", "NeverOutBelowTwoFailures", "AllFailingLeaves", "ProbeSpacing", "ProbeIsOneCall",
-         "ProbeDecides", "OnlyProbeReturns", "CallsGoSomewhere"]
+         "ProbeDecides", "OnlyProbeReturns", "CallsGoSomewhere", "RefusedProbeStaysBlocked (fault configs)", "RefusedIsAFailedCall (fault configs)"]
 
 
 def tmpl(name, **kw):
@@ -69,9 +70,39 @@ def features(b):
     f = set()
     n = b["n"]
     prev = list(range(1, n + 1))
+    prev_st = None
+    went_down = set()
     for s in b["steps"]:
         st = s["st"]
         ac = st["ac"]
+        up = st.get("up", list(range(1, n + 1)))
+        if s["a"] == "Down":
+            f.add("endpoint_down")
+            went_down.add(s["e"])
+            if prev_st and s["e"] in prev_st["cr"] and prev_st["h"][s["e"] - 1][3] > 0:
+                f.add("connection_lost")
+        if s["a"] == "Up":
+            f.add("endpoint_back")
+        if s["a"] == "Refused":
+            f.add("refused_call")
+            f.add("kind_" + s["k"])
+            if prev_st and prev_st["pq"]:
+                f.add("refused_probe")
+            elif not prev:
+                f.add("refused_fallback_call")
+            if len(s["cands"]) > 1:
+                f.add("strategy_choice_refused")
+            if prev_st and s["e"] not in prev_st["cr"]:
+                f.add("refused_first_use")
+        if s["a"] == "Check" and prev_st:
+            for e in range(1, n + 1):
+                was, now = prev_st["h"][e - 1], st["h"][e - 1]
+                if e in prev_st["cr"] and not was[0] and was[5] >= 30 and e not in up and e not in st["li"]:
+                    f.add("reconnect_failed_no_admission")
+                if was[0] and not now[0] and e not in up:
+                    f.add("blocked_while_down")
+        if s["a"] == "CallDone" and s["ok"] and len(ac) > len(prev) and s["e"] in went_down:
+            f.add("reinstated_after_coming_back")
         if len(ac) < len(prev):
             f.add("endpoint_blocked")
             for e in prev:
@@ -95,6 +126,8 @@ def features(b):
             f.add("check_during_call")
         if not ac:
             f.add("all_blocked")
+        if not up:
+            f.add("nothing_listens")
         if len(st["pq"]) > 1:
             f.add("two_in_probe_queue")
         if any(not h[0] for h in st["h"]) and ac:
@@ -103,16 +136,19 @@ def features(b):
             if st["h"][e - 1][0]:
                 f.add("healthy_endpoint_in_probe_queue")
         prev = ac
+        prev_st = st
     return f
 
 
 def probe_call_gaps(b):
     """Virtual time between consecutive probe CALLS to the same endpoint (the statement is judged on admissions)."""
     t, last, close = 0, {}, 0
+    pq = []
     for s in b["steps"]:
+        was_probe, pq = bool(pq), s["st"]["pq"]
         if s["a"] == "Advance":
             t += s["d"]
-        if s["a"] == "Select" and s["st"]["fl"][s["c"] - 1][1]:
+        if (s["a"] == "Select" and s["st"]["fl"][s["c"] - 1][1]) or (s["a"] == "Refused" and was_probe):
             if s["e"] in last and t - last[s["e"]] < 30:
                 close += 1
             last[s["e"]] = t
@@ -130,6 +166,9 @@ def corrupt(b, kind):
             st["ac"] = sorted(set(st["ac"]) | {blocked[0]})
             return c, i, ("active",)
         if kind == "failure-not-counted" and s["a"] == "CallDone" and not s["ok"]:
+            st["h"][s["e"] - 1][1] -= 1
+            return c, i, ("failCount",)
+        if kind == "refusal-not-counted" and s["a"] == "Refused":
             st["h"][s["e"] - 1][1] -= 1
             return c, i, ("failCount",)
         if kind == "probe-admission-dropped" and s["a"] == "Check" and st["pq"]:
@@ -158,7 +197,13 @@ def run(ctx):
         "virtual time: the adapters' timestamps are shifted backwards, which equals advancing the clock because the health logic only "
         "evaluates now - t >= threshold; a behaviour that takes more than 3.5 s of wall time is retried, never judged",
         "a failed call is a call whose context ends before the (silent) server answers: cancelled by the driver once the server has "
-        "the request, or -- every 10th behaviour -- left to run into a real call timeout of 120 ms",
+        "the request, or -- every 10th behaviour -- left to run into a real call timeout of 120 ms; or a call whose request cannot be "
+        "sent because the endpoint's server does not listen (connection refused at once on the loopback interface)",
+        "a server stops listening / comes back only between calls, and the next step waits until the client transport has noticed the "
+        "loss of its connection (hooks client.reconnect.dialed / client.close): 'does not listen' then equals 'cannot be sent'; ReConnect "
+        "inside checkActive succeeds exactly when the server listens",
+        "a request that cannot be sent counts as a failed call of its endpoint; with keep-alive configured that includes the status "
+        "check's own ping (as coded: a sent and failed request), so an endpoint may leave rotation on failed pings alone",
         "the strategies' own choice among the endpoints in rotation is not modelled (Selector / HashRing do that): the driver positions "
         "the cursor / hash code / fallback seed so that the real choice follows the behaviour, and the model's candidate set is what is judged",
         "time does not advance while a call is in flight (a call lasts at most its timeout, below the 5 s granularity of the model)",
@@ -187,23 +232,30 @@ def run(ctx):
 
     # ---- 3. TLC produces the behaviours
     # (family, N, checks overlap calls)
-    plans = [("F1+F2+F3", 1, "FALSE"), ("F3+F4", 2, "FALSE"), ("F5", 3, "FALSE"), ("F6", 1, "TRUE"), ("F6", 2, "TRUE")]
+    # F8 / F9: endpoints that stop listening and come back (Faults): refused calls, failed reconnects, refused probes, nothing listens
+    plans = [("F1+F2+F3", 1, "FALSE"), ("F3+F4", 2, "FALSE"), ("F5", 3, "FALSE"), ("F6", 1, "TRUE"), ("F6", 2, "TRUE"),
+             ("F8", 1, "FALSE", "FALSE", "FALSE", "TRUE"), ("F8+F9", 2, "FALSE", "FALSE", "FALSE", "TRUE")]
     # keep-alive configured (not the default): the same plans under the model of the code as it is (a sent ping is booked as a sent,
     # successful call) and under the model of the repair (a sent ping leaves the health record alone)
-    ka_plans = [("F7", 2, "FALSE", "TRUE", "FALSE"), ("F7", 2, "FALSE", "TRUE", "TRUE")]
-    # (N, call slots, checks overlap calls, behaviours, depth)
+    # (F10: an endpoint that does not listen and gets no call any more -- only the pings of the status checks fail on it)
+    ka_plans = [("F7+F10", 2, "FALSE", "TRUE", "FALSE", "TRUE"), ("F7+F10", 2, "FALSE", "TRUE", "TRUE", "TRUE")]
+    # (N, call slots, checks overlap calls, behaviours, depth[, endpoints stop listening and come back])
     sims = ctx.pick(
         [(1, "1", "FALSE", 100, 32), (2, "1", "FALSE", 250, 32), (3, "1", "FALSE", 250, 36), (4, "1", "FALSE", 100, 36),
-         (2, "1, 2", "FALSE", 100, 32), (2, "1", "TRUE", 100, 32), (3, "1, 2", "TRUE", 100, 36)],
+         (2, "1, 2", "FALSE", 100, 32), (2, "1", "TRUE", 100, 32), (3, "1, 2", "TRUE", 100, 36),
+         (1, "1", "FALSE", 60, 32, "TRUE"), (2, "1", "FALSE", 150, 36, "TRUE"), (3, "1", "FALSE", 100, 36, "TRUE"),
+         (2, "1, 2", "TRUE", 60, 36, "TRUE")],
         [(1, "1", "FALSE", 400, 44), (2, "1", "FALSE", 900, 44), (3, "1", "FALSE", 900, 48), (4, "1", "FALSE", 600, 48),
          (2, "1, 2", "FALSE", 300, 44), (3, "1, 2", "FALSE", 300, 48), (2, "1", "TRUE", 300, 44), (3, "1, 2", "TRUE", 300, 48),
-         (4, "1, 2", "TRUE", 200, 48)])
+         (4, "1, 2", "TRUE", 200, 48),
+         (1, "1", "FALSE", 200, 44, "TRUE"), (2, "1", "FALSE", 600, 44, "TRUE"), (3, "1", "FALSE", 500, 48, "TRUE"),
+         (4, "1", "FALSE", 300, 48, "TRUE"), (2, "1, 2", "TRUE", 200, 44, "TRUE"), (3, "1, 2", "TRUE", 200, 48, "TRUE")])
 
     def gen_plan(p):
         fam, n, ov = p[:3]
-        ka, pn = (p[3], p[4]) if len(p) > 3 else ("FALSE", "FALSE")
+        ka, pn, ft = (p[3], p[4], p[5]) if len(p) > 3 else ("FALSE", "FALSE", "FALSE")
         r = tlc.run(ctx, SPEC, "Plan_Failover", cfg="Plan_run.cfg", workers=1, timeout=300, name="plan-%s-%d-%s" % (fam, n, pn),
-                    extra_files={"Plan_run.cfg": tmpl("Plan.cfg.tmpl", N=n, F=fam, OV=ov, KA=ka, PN=pn)})
+                    extra_files={"Plan_run.cfg": tmpl("Plan.cfg.tmpl", N=n, F=fam, OV=ov, KA=ka, PN=pn, FT=ft)})
         if not r.success:
             raise Inconclusive("plan generation %s failed:\n%s" % (p, "\n".join(r.out.splitlines()[-30:])))
         out = behaviours_of(r.out, False)
@@ -213,15 +265,16 @@ def run(ctx):
 
     def gen_sim(k_s):
         k, s = k_s
-        n, calls, ov, num, depth = s
+        n, calls, ov, num, depth = s[:5]
+        ft = s[5] if len(s) > 5 else "FALSE"
         r = tlc.run(ctx, SPEC, "Gen_Failover", cfg="Gen_run.cfg", workers=1, timeout=600, name="gen-%d" % k,
-                    extra_files={"Gen_run.cfg": tmpl("Gen.cfg.tmpl", N=n, CALLS=calls, OV=ov, KA="FALSE", D=depth, PB=85, PG=10)},
+                    extra_files={"Gen_run.cfg": tmpl("Gen.cfg.tmpl", N=n, CALLS=calls, OV=ov, KA="FALSE", D=depth, PB=85, PG=10, FT=ft)},
                     simulate="num=%d" % num, depth=depth, seed=ctx.seed * 1000 + k)
         out = behaviours_of(r.out, True)
         if not out:
             raise Inconclusive("behaviour generation %s produced nothing:\n%s" % (s, "\n".join(r.out.splitlines()[-30:])))
         for b in out:
-            b["src"] = "walk N=%d slots={%s} overlap=%s seed=%d" % (n, calls, ov, ctx.seed * 1000 + k)
+            b["src"] = "walk N=%d slots={%s} overlap=%s faults=%s seed=%d" % (n, calls, ov, ft, ctx.seed * 1000 + k)
         return out, r
 
     scripts = []
@@ -253,9 +306,10 @@ def run(ctx):
         raise
 
     # ---- 3b. exhaustive model checking of the design (runs beside the replay)
-    cfgs = ctx.pick(["one_seq", "one_ovl", "two_quick", "one_keepalive", "one_keepalive_fixed"],
+    cfgs = ctx.pick(["one_seq", "one_ovl", "two_quick", "one_keepalive", "one_keepalive_fixed", "one_faults", "one_keepalive_faults",
+                     "two_faults_quick"],
                     ["one_seq", "one_ovl", "two_seq", "two_ovl", "two_conc", "two_fine", "three", "one_keepalive", "one_keepalive_fixed",
-                     "keepalive"])
+                     "keepalive", "one_faults", "one_keepalive_faults", "two_faults"])
     # the model of the code AS IT IS with keep-alive configured must exhibit the recorded deviation, and nothing else
     expect_broken = {"one_keepalive": "AllFailingLeavesAlways", "keepalive": "AllFailingLeaves"}
     mc_pool = ThreadPoolExecutor(max_workers=ctx.pick(3, 2))
@@ -268,7 +322,10 @@ def run(ctx):
             feats[x] = feats.get(x, 0) + 1
     need = ["endpoint_blocked", "blocked_by_consecutive_rule", "endpoint_reinstated", "probe_call", "fallback_call", "strategy_choice",
             "probe_admitted", "all_blocked", "partly_blocked", "two_in_probe_queue", "kind_rr", "kind_mod", "kind_ch", "call_ok", "call_failed",
-            "check_during_call", "healthy_endpoint_in_probe_queue"]
+            "check_during_call", "healthy_endpoint_in_probe_queue",
+            # endpoints that stop listening and come back
+            "endpoint_down", "endpoint_back", "connection_lost", "refused_call", "refused_probe", "refused_fallback_call", "refused_first_use",
+            "strategy_choice_refused", "reconnect_failed_no_admission", "blocked_while_down", "reinstated_after_coming_back", "nothing_listens"]
     missing = [x for x in need if feats.get(x, 0) < 3]
     if missing:
         raise Inconclusive("generated behaviours never exercise %s (vacuous replay)" % missing)
@@ -291,8 +348,8 @@ def run(ctx):
     okidx = [r["idx"] for r in res if r["outcome"] == "ok"]
     selftest = {}
     bad_scripts, expect = [], []
-    for kind in ("blocked-claimed-in-rotation", "failure-not-counted", "probe-admission-dropped", "reinstatement-denied", "call-elsewhere",
-                 "time-not-passed"):
+    for kind in ("blocked-claimed-in-rotation", "failure-not-counted", "refusal-not-counted", "probe-admission-dropped",
+                 "reinstatement-denied", "call-elsewhere", "time-not-passed"):
         for i in okidx:
             if scripts[i].get("overlap"):
                 continue
@@ -303,6 +360,8 @@ def run(ctx):
                 break
         else:
             selftest[kind] = "no candidate behaviour"
+    if "refusal-not-counted" in selftest and not diverging:
+        raise Inconclusive("binding self-test: no replayed behaviour with a refused call to corrupt")
     if len(bad_scripts) < 4 and not diverging:
         raise Inconclusive("binding self-test: too few corruptible behaviours: %s" % selftest)
     # (when the real code diverges on most behaviours there may be nothing clean left to corrupt: the divergences are the verdict)
@@ -341,6 +400,8 @@ def run(ctx):
             stats[k] = stats.get(k, 0) + v
     steps_done = sum(r["steps_done"] for r in res)
     sample = next((s for s in scripts if "endpoint_reinstated" in features(s) and s["n"] == 2 and len(s["steps"]) < 40), scripts[0])
+    fsample = next((s for s in scripts if "reinstated_after_coming_back" in features(s) and "blocked_while_down" in features(s)
+                    and len(s["steps"]) < 40), None)
     close_calls = sum(probe_call_gaps(b) for b in scripts)
     ctx.coverage = {
         "states": mc_states + gen_states,
@@ -348,8 +409,10 @@ def run(ctx):
         "traces_validated_against_impl": judged,
         "samples": [{"kind": "replayed model behaviour (%s); st = model state after the step: h = per endpoint [status, failCount, "
                              "min(lastFailCount,5), sendCount, age(lastSuccessTime)<=5, age(lastBlockTime)<=30, age(lastCheckTime)<=60], "
-                             "cr created, ac in rotation, pq probe queue, li probe-listed, fl in-flight [endpoint, probe]" % sample.get("src"),
-                     "script": sample}],
+                             "cr created, ac in rotation, pq probe queue, li probe-listed, fl in-flight [endpoint, probe], up endpoints whose "
+                             "server listens" % sample.get("src"),
+                     "script": sample}] + ([{"kind": "replayed model behaviour with an endpoint that stops listening and comes back (%s)"
+                                                      % fsample.get("src"), "script": fsample}] if fsample else []),
         "model_checking": mc,
         "mc_distinct_states": mc_states,
         "properties_checked_by_tlc": PROPS + ["TypeOK", "RotationIsHealthy", "ProbeQueueSingle", "ProbesTargetBlocked (sequential configs)",
@@ -377,8 +440,9 @@ def run(ctx):
         },
         "evaluations": judged,
         "distinct_nontrivial": len(scripts),
-        "rule": "TLC-generated behaviours of Failover (enumerated threshold plans F1-F5 + seeded biased random walks over 1-4 endpoints, 1-2 "
-                "concurrent calls, with and without status checks during calls) replayed step by step on the real ServantProxy / "
+        "rule": "TLC-generated behaviours of Failover (enumerated threshold plans F1-F6, F8-F9 + seeded biased random walks over 1-4 endpoints, 1-2 "
+                "concurrent calls, with and without status checks during calls, with and without endpoints that stop listening and come "
+                "back) replayed step by step on the real ServantProxy / "
                 "endpointManager / AdapterProxy; after every step the projection (status, counters, ages, activeEp, members of the three "
                 "selectors, probe queue and its guard set, in-flight targets) is compared; a divergence counts only if it reproduces 3 times",
         "exhaustive": False,
